@@ -273,6 +273,43 @@ fn open_and_answer(cfg: &TreeCfg, dir: &Path, keys: &[Key], mid: u64) -> Result<
     }
 }
 
+/// Like `open_and_answer`, and then the "laundering" path: a major compaction with watermark 0 (it retains every
+/// version, so a correct tree answers exactly as before; an `Err` from it is fine and leaves the tree as it was)
+/// followed by the same battery on the open tree and once more on a fresh open. A compaction reads the tables through
+/// the sequential scanner, not through the point/range readers; if it copies an altered byte into a freshly
+/// checksummed table, every *subsequent* lookup and scan serves it as data (the property's "every subsequent open,
+/// lookup or scan"). Returns (before, after-on-the-open-tree, after-reopen).
+#[allow(clippy::type_complexity)]
+fn open_answer_compact(cfg: &TreeCfg, dir: &Path, keys: &[Key], mid: u64) -> Result<(Vec<(String, Ans)>, Vec<(String, Ans)>, Option<Vec<(String, Ans)>>), ()> {
+    let c = cfg.build(dir, SequenceNumberCounter::default(), SequenceNumberCounter::default(), None);
+    let tree = c.open().map_err(|_| ())?;
+    let a1 = answers(&tree, keys, mid);
+    let _ = tree.major_compact(u64::MAX, 0);
+    let a2 = answers(&tree, keys, mid);
+    drop(tree);
+    let a3 = open_and_answer(cfg, dir, keys, mid).ok();
+    Ok((a1, a2, a3))
+}
+
+/// Folds the three batteries of `open_answer_compact` into one outcome: a wrong answer anywhere wins.
+fn compare_compacted(reference: &[(String, Ans)], r: &(Vec<(String, Ans)>, Vec<(String, Ans)>, Option<Vec<(String, Ans)>>)) -> (Outcome, String) {
+    let (o1, d1) = compare(reference, &r.0);
+    if o1 == Outcome::Wrong {
+        return (o1, d1);
+    }
+    let (o2, d2) = compare(reference, &r.1);
+    if o2 == Outcome::Wrong {
+        return (o2, format!("after-major-compaction: {d2}"));
+    }
+    if let Some(a3) = &r.2 {
+        let (o3, d3) = compare(reference, a3);
+        if o3 == Outcome::Wrong {
+            return (o3, format!("after-major-compaction-and-reopen: {d3}"));
+        }
+    }
+    (o1, d1)
+}
+
 fn apply(m: &Mutation, path: &Path, orig: &[u8], case_seed: u64) {
     match m.kind {
         3 => {
@@ -341,16 +378,31 @@ pub fn worker(args: &Args) -> i32 {
         let _ = log.flush();
         let path = work.join(&rel[m.file]);
         apply(m, &path, &origs[m.file], seed ^ case);
-        let r = catch_unwind(AssertUnwindSafe(|| open_and_answer(&ts.cfg, &work, &ts.keys, ts.mid)));
-        let (outcome, detail) = match r {
-            Err(_) => {
-                let _ = hooks::take_panic();
-                (Outcome::FailStop, String::new())
-            }
-            Ok(Err(())) => (Outcome::ErrorOnOpen, String::new()),
-            Ok(Ok(a)) => compare(&reference, &a),
-        };
         let kind = file_kind(&pristine, &files[m.file]);
+        // every third mutation of a table or blob file also takes the laundering path (compaction, then the battery again)
+        let launder = (i as u64 + seed) % 3 == 0 && (kind == "table" || kind == "blob");
+        let (outcome, detail) = if launder {
+            match catch_unwind(AssertUnwindSafe(|| open_answer_compact(&ts.cfg, &work, &ts.keys, ts.mid))) {
+                Err(_) => {
+                    let _ = hooks::take_panic();
+                    (Outcome::FailStop, String::new())
+                }
+                Ok(Err(())) => (Outcome::ErrorOnOpen, String::new()),
+                Ok(Ok(r)) => compare_compacted(&reference, &r),
+            }
+        } else {
+            match catch_unwind(AssertUnwindSafe(|| open_and_answer(&ts.cfg, &work, &ts.keys, ts.mid))) {
+                Err(_) => {
+                    let _ = hooks::take_panic();
+                    (Outcome::FailStop, String::new())
+                }
+                Ok(Err(())) => (Outcome::ErrorOnOpen, String::new()),
+                Ok(Ok(a)) => compare(&reference, &a),
+            }
+        };
+        if launder {
+            let _ = writeln!(log, "L {i}");
+        }
         let region = if kind == "current" { "current".to_string() } else { region_of(&regs[m.file], m.offset) };
         let o = match outcome {
             Outcome::Same => "same",
@@ -370,7 +422,7 @@ pub fn worker(args: &Args) -> i32 {
         // restore: the mutated file, and anything recovery deleted as "orphan"
         std::fs::write(&path, &origs[m.file]).expect("restore");
         let present: BTreeSet<PathBuf> = list_files(&work).iter().map(|f| f.strip_prefix(&work).expect("prefix").to_path_buf()).collect();
-        if present != names {
+        if present != names || launder {
             copy_tree(&pristine, &work);
         }
         i += 1;
@@ -503,6 +555,9 @@ pub fn cmd(args: &Args) -> i32 {
         let mut executed = 0u64;
         for l in text.lines() {
             let parts: Vec<&str> = l.splitn(9, ' ').collect();
+            if parts.first() == Some(&"L") {
+                bump(&mut c, "mutations_followed_by_major_compaction", 1);
+            }
             if parts.first() != Some(&"R") || parts.len() < 8 {
                 continue;
             }
@@ -622,10 +677,10 @@ pub fn replay(j: &J, scratch: &Path) -> i32 {
     let rel = files[m.file].strip_prefix(&pristine).expect("prefix");
     let orig = std::fs::read(&files[m.file]).expect("read");
     apply(m, &work.join(rel), &orig, seed ^ case);
-    let r = catch_unwind(AssertUnwindSafe(|| open_and_answer(&ts.cfg, &work, &ts.keys, ts.mid)));
+    let r = catch_unwind(AssertUnwindSafe(|| open_answer_compact(&ts.cfg, &work, &ts.keys, ts.mid)));
     match r {
         Ok(Ok(a)) => {
-            let (o, d) = compare(&reference, &a);
+            let (o, d) = compare_compacted(&reference, &a);
             if o == Outcome::Wrong {
                 println!("REPLAY-VIOLATION tags=C10 sig=wrong-answer");
                 println!("{} offset {} mutation {}: {d}", rel.display(), m.offset, m.kind);
